@@ -1,4 +1,9 @@
-"""Kani units: harness/contract fragments appended to a scratch copy of the real crate (cfg(kani) only)."""
+"""Kani units: harness modules (cfg(kani) only) appended by #[path] to a scratch copy of the real crate.
+
+A unit = one file under /verif/kani/ holding #[kani::proof] harnesses that state a function's contract as
+assume(pre); call the REAL function; assert(post).  Loop-free harnesses over kani::any() inputs of the full
+domain are complete proofs; harnesses with #[kani::unwind] / bounded symbolic lengths are labelled bounded
+and never counted as proved."""
 import json
 import os
 import re
@@ -6,10 +11,174 @@ import shutil
 import subprocess
 import time
 
+CACHE_TARGET = ".cache/kani-target"
 
-def warm(repo, verif):
-    return 0
+
+def scratch(repo, tag):
+    d = "/tmp/verif-scratch-kani-%s" % tag
+    shutil.rmtree(d, ignore_errors=True)
+    subprocess.run(["rsync", "-a", "--exclude", "target", "--exclude", ".git", repo.rstrip("/") + "/", d + "/"], check=True)
+    return d
+
+
+def kani_env(verif):
+    env = dict(os.environ)
+    env["CARGO_NET_OFFLINE"] = "true"
+    env["CARGO_TARGET_DIR"] = os.path.join(verif, CACHE_TARGET)
+    return env
+
+
+def parse_output(text):
+    """-> {harness: dict(status, checks_total, checks_failed, failed_checks[], time)}"""
+    res = {}
+    cur = None
+    by_thread = {}
+    for line in text.split("\n"):
+        tm = re.match(r"^Thread (\d+): (.*)$", line)
+        if tm:
+            th, rest = tm.group(1), tm.group(2)
+            m = re.match(r"Checking harness (\S+?)\.\.\.", rest)
+            if m:
+                by_thread[th] = m.group(1)
+                res[m.group(1)] = dict(status="unknown", checks_total=0, checks_failed=0, failed_checks=[], time=None, unwinding_failed=False)
+                continue
+            cur = by_thread.get(th)
+            line = rest
+        m = re.match(r"Checking harness (\S+?)\.\.\.", line)
+        if m:
+            cur = m.group(1)
+            res[cur] = dict(status="unknown", checks_total=0, checks_failed=0, failed_checks=[], time=None, unwinding_failed=False)
+            continue
+        if cur is None:
+            continue
+        m = re.match(r"\s*\*\* (\d+) of (\d+) failed", line)
+        if m:
+            res[cur]["checks_failed"] = int(m.group(1))
+            res[cur]["checks_total"] = int(m.group(2))
+        m = re.match(r"Failed Checks: (.*)", line)
+        if m:
+            res[cur]["failed_checks"].append(m.group(1).strip())
+            if "unwinding assertion" in m.group(1):
+                res[cur]["unwinding_failed"] = True
+        m = re.match(r"\s*File: \"([^\"]+)\", line (\d+)", line)
+        if m and res[cur]["failed_checks"] and "@" not in res[cur]["failed_checks"][-1]:
+            res[cur]["failed_checks"][-1] += " @ %s:%s" % (m.group(1), m.group(2))
+        if "VERIFICATION:- SUCCESSFUL" in line:
+            res[cur]["status"] = "ok"
+        elif "VERIFICATION:- FAILED" in line:
+            res[cur]["status"] = "failed"
+        m = re.match(r"Verification Time: ([0-9.]+)s", line)
+        if m:
+            res[cur]["time"] = float(m.group(1))
+    return res
 
 
 def run_units(pid, kunits, repo, verif, tier, work):
-    return []
+    out = []
+    d = scratch(repo, "%s-%d" % (pid, os.getpid()))
+    try:
+        lib = os.path.join(d, "src", "lib.rs")
+        feature_line = "#![cfg_attr(kani, feature(stmt_expr_attributes, proc_macro_hygiene))]\n"
+        need_feat = any(u.get("loop_contracts") for u in kunits)
+        if need_feat:
+            s = open(lib).read()
+            open(lib, "w").write(feature_line + s)
+        with open(lib, "a") as f:
+            for u in kunits:
+                f.write('\n#[cfg(kani)]\n#[path = "%s"]\nmod %s;\n' % (os.path.join(verif, "kani", u["file"]), u["mod"]))
+        for u in kunits:
+            for sp in u.get("splices", []):
+                # mechanical in-place annotation of the scratch copy (e.g. a loop-contract attribute before a loop)
+                p = os.path.join(d, sp["file"])
+                s = open(p).read()
+                if s.count(sp["anchor"]) != 1:
+                    out.append(dict(name=u["name"], status="undecided", reason="lost anchor `%s` in %s" % (sp["anchor"], sp["file"]), failed=[], harnesses=[]))
+                    continue
+                open(p, "w").write(s.replace(sp["anchor"], sp["text"] + sp["anchor"]))
+        for u in kunits:
+            if any(o["name"] == u["name"] for o in out):
+                continue
+            out.append(run_unit(pid, u, d, verif, tier))
+    finally:
+        shutil.rmtree(d, ignore_errors=True)
+    return out
+
+
+def run_unit(pid, u, d, verif, tier):
+    t0 = time.time()
+    hs = [h for h in u["harnesses"] if tier == "thorough" or not h.get("thorough_only")]
+    flags = ["-Z", "function-contracts", "-Z", "stubbing"] + u.get("flags", [])
+    cmd = ["cargo", "kani"] + flags + ["--exact", "-j", str(u.get("jobs", 8)), "--output-format=terse"]
+    for h in hs:
+        cmd += ["--harness", "%s::%s" % (u["mod"], h["name"])]
+    timeout = u.get("timeout_thorough" if tier == "thorough" else "timeout", 900)
+    res = dict(name=u["name"], cmd="CARGO_NET_OFFLINE=true " + " ".join(cmd) + "  (scratch copy of the working tree + kani/%s)" % u["file"],
+               failed=[], harnesses=[], status="ok", reason="", checks_total=0, checks_ok=0,
+               bounded=any(h.get("bounded") for h in hs), bound="; ".join("%s: %s" % (h["name"], h["bound"]) for h in hs if h.get("bounded")),
+               label="")
+    logp = os.path.join(d, "kani_%s.log" % u["name"])
+    with open(logp, "w") as lf:
+        pr = subprocess.Popen(cmd, cwd=d, env=kani_env(verif), stdout=lf, stderr=subprocess.STDOUT, start_new_session=True)
+        try:
+            rc = pr.wait(timeout=timeout)
+        except subprocess.TimeoutExpired:
+            import signal
+            try:
+                os.killpg(pr.pid, signal.SIGKILL)
+            except ProcessLookupError:
+                pass
+            pr.wait()
+            rc = -9
+    text = open(logp, errors="replace").read()
+    parsed = parse_output(text)
+    res["wall_s"] = round(time.time() - t0, 1)
+    for h in hs:
+        full = "%s::%s" % (u["mod"], h["name"])
+        r = None
+        for k, v in parsed.items():
+            if k.endswith(full) or k.endswith("::" + h["name"]):
+                r = v
+        hd = dict(name=h["name"], functions=h.get("functions", []), bounded=bool(h.get("bounded")), bound=h.get("bound"),
+                  status=(r or {}).get("status", "not run"), checks_total=(r or {}).get("checks_total", 0),
+                  checks_failed=(r or {}).get("checks_failed", 0), time_s=(r or {}).get("time"), contract=h.get("contract", ""))
+        res["harnesses"].append(hd)
+        if r is None or r["status"] == "unknown":
+            if h.get("optional"):
+                hd["status"] = "not finished (optional: reported as assumed)"
+                continue
+            res["status"] = "undecided"
+            res["reason"] += "harness %s did not finish (rc=%s) %s; " % (h["name"], rc, text[-300:].replace("\n", " ") if r is None else "")
+            continue
+        res["checks_total"] += r["checks_total"]
+        res["checks_ok"] += r["checks_total"] - r["checks_failed"]
+        if r["status"] == "failed":
+            if r["unwinding_failed"] and all("unwinding" in c for c in r["failed_checks"]):
+                res["status"] = "undecided" if res["status"] == "ok" else res["status"]
+                res["reason"] += "harness %s: unwinding bound too small; " % h["name"]
+                continue
+            res["status"] = "failed"
+            for c in r["failed_checks"]:
+                if "unwinding" in c:
+                    continue
+                res["failed"].append(dict(obligation="kani::%s::%s" % (u["name"], h["name"]), function=", ".join(h.get("functions", [])),
+                                          kind="kani check failed", clause=c[:300], site=c.split("@")[-1].strip() if "@" in c else "", at="",
+                                          rendered=c, counterexample=None))
+    res["label"] = "bounded" if res["bounded"] else "full-domain"
+    return res
+
+
+def warm(repo, verif):
+    """compile the dependencies for kani once (about a minute); later runs only rebuild the crate"""
+    d = scratch(repo, "warm")
+    try:
+        lib = os.path.join(d, "src", "lib.rs")
+        with open(lib, "a") as f:
+            f.write("\n#[cfg(kani)]\nmod verif_kani_warm { #[kani::proof] fn warm() { let x: u8 = kani::any(); assert!(x == x); } }\n")
+        p = subprocess.run(["cargo", "kani", "--exact", "--harness", "verif_kani_warm::warm"], cwd=d, env=kani_env(verif),
+                           capture_output=True, text=True, timeout=3000)
+        if "VERIFICATION:- SUCCESSFUL" not in p.stdout:
+            print(p.stdout[-1500:], p.stderr[-1500:])
+            return 1
+        return 0
+    finally:
+        shutil.rmtree(d, ignore_errors=True)
